@@ -61,7 +61,11 @@ const vkWKP = "64:ff9b::/96"
 
 type vkCfg struct {
 	Name        string   `json:"name"`
-	Prefixes    []string `json:"prefixes"`
+	Prefixes    []string `json:"prefixes"` // the EFFECTIVE prefixes (what synthesis must use)
+	// Raw, when UseRaw is set, is what is written into the configuration instead: nothing, or only
+	// illegal entries — sdns then falls back to the well-known prefix (RFC 6147 5.2), which Prefixes names.
+	Raw    []string `json:"raw,omitempty"`
+	UseRaw bool     `json:"use_raw,omitempty"`
 	ClientNets  []string `json:"client_nets"`
 	ExclZones   []string `json:"excl_zones"`
 	ExclA       []string `json:"excl_a"`    // explicit (never nil -> no built-in defaults involved)
@@ -82,6 +86,8 @@ func vkConfigs() []*vkCfg {
 		{Name: "32+clients", Prefixes: []string{"2001:db8::/32"}, ClientNets: []string{"198.51.100.0/24", "2001:db8:c::/48"}, ExclA: []string{}, ExclAAAA: mapped},
 		{Name: "wkp+zones", Prefixes: []string{vkWKP}, ExclZones: []string{"excluded.example", "Other.Example."}, ExclA: []string{}, ExclAAAA: []string{}},
 		{Name: "48", Prefixes: []string{"2001:db8:4800::/48"}, ExclA: []string{"10.0.0.0/8"}, ExclAAAA: mapped, ClientNets: []string{"203.0.113.0/24"}, ExclZones: []string{"excluded.example."}},
+		{Name: "fallback-none", Prefixes: []string{vkWKP}, UseRaw: true, Raw: nil, ExclA: []string{"10.0.0.0/8"}, ExclAAAA: mapped},
+		{Name: "fallback-illegal", Prefixes: []string{vkWKP}, UseRaw: true, Raw: []string{"2001:db8:100::/49", "not-a-prefix", "2001:db8::/72"}, ExclA: []string{"10.0.0.0/8", "192.168.0.0/16"}, ExclAAAA: mapped},
 	}
 	for _, c := range cs {
 		for _, s := range c.Prefixes {
@@ -107,12 +113,19 @@ func vkConfigs() []*vkCfg {
 func (c *vkCfg) build() *DNS64 {
 	return New(&config.Config{DNS64: config.DNS64Config{
 		Enabled:             true,
-		Prefixes:            append([]string(nil), c.Prefixes...),
+		Prefixes:            c.configuredPrefixes(),
 		ClientNetworks:      append([]string(nil), c.ClientNets...),
 		ExcludeZones:        append([]string(nil), c.ExclZones...),
 		ExcludeANetworks:    append([]string{}, c.ExclA...),
 		ExcludeAAAANetworks: append([]string{}, c.ExclAAAA...),
 	}})
+}
+
+func (c *vkCfg) configuredPrefixes() []string {
+	if c.UseRaw {
+		return append([]string(nil), c.Raw...)
+	}
+	return append([]string(nil), c.Prefixes...)
 }
 
 // oracle-side predicates (plain stdlib containment on the hand-written config)
